@@ -458,19 +458,26 @@ func (m *Machine) nativeStringFn(s *State, f *Frame, x *ssa.Call, name string, a
 			f.env[x] = m.mkStr(strconv.Itoa(int(int64(a.t.cv))))
 		}
 		return true
-	case "net/url.PathEscape":
+	case "net/url.PathEscape", "net/url.QueryEscape":
 		a, ok := str(0)
 		if !ok {
 			return false
 		}
-		f.env[x] = m.mkStr(urlPathEscape(a))
+		if name == "net/url.QueryEscape" {
+			f.env[x] = m.mkStr(url.QueryEscape(a))
+		} else {
+			f.env[x] = m.mkStr(urlPathEscape(a))
+		}
 		return true
-	case "net/url.PathUnescape":
+	case "net/url.PathUnescape", "net/url.QueryUnescape":
 		a, ok := str(0)
 		if !ok {
 			return false
 		}
 		r, err := urlPathUnescape(a)
+		if name == "net/url.QueryUnescape" {
+			r, err = url.QueryUnescape(a)
+		}
 		var ev Value = IfaceV{}
 		if err != nil {
 			m.nerr++
